@@ -55,6 +55,15 @@ func runStateCache(args []string) (map[string]any, error) {
 		tid++
 		exec.RunSCHistory(w, st, tid, exec.GenSCHistory(r, false))
 	}
+	// structured family: every commit order of a four-block tree with every write/removal assignment of one key
+	norders := 0
+	if *c.n > 0 {
+		for _, h := range exec.GenSCCommitOrders() {
+			tid++
+			norders++
+			exec.RunSCHistory(w, st, tid, h)
+		}
+	}
 	for i := 0; i < *nlong; i++ {
 		tid++
 		if i%3 == 0 {
@@ -66,6 +75,6 @@ func runStateCache(args []string) (map[string]any, error) {
 	if err := w.Close(); err != nil {
 		return nil, err
 	}
-	return map[string]any{"traces": st.Traces, "events": st.Events, "tlc_histories": nTLC, "go_histories": *c.n + *nlong,
+	return map[string]any{"traces": st.Traces, "events": st.Events, "tlc_histories": nTLC, "go_histories": *c.n + *nlong, "commit_order_histories": norders,
 		"hits": st.Hits, "misses": st.Misses, "panics": st.Panics, "distinct_signatures": len(st.Distinct), "samples": w.Samples}, nil
 }
